@@ -127,6 +127,9 @@ class Analyzer:
         self.panel_module = pm
         self._fninfo = {}
         dp = "sktime/utils/data_processing.py"
+        self.is_nested = repo.func(dp, "is_nested_dataframe")
+        self.converters = {id(repo.func(dp, "from_3d_numpy_to_nested")): (NP, PD),
+                           id(repo.func(dp, "from_nested_to_3d_numpy")): (PD, NP)}
         self.rows_helpers = {id(repo.func(dp, "from_nested_to_2d_array")): (PD,),
                              id(repo.func(dp, "from_3d_numpy_to_2d_array")): (NP,)}
 
@@ -248,12 +251,15 @@ class _FnRun:
         self.collect = False
         self._seen = set()
         self.params = set(astq.all_param_names(fn))
+        # parameters fixed to a Boolean for this run (model-conformance runs of the validators)
+        self.consts = {p: next(iter(v))[1] for p, v in bind.items()
+                       if len(v) == 1 and isinstance(next(iter(v)), tuple) and next(iter(v))[0] == "const"}
 
     # ------------------------------------------------------------------ driver
     def run(self):
         g = self.cfg
         IN = {n.id: None for n in g.nodes}
-        IN[g.entry.id] = dict(self.bind)
+        IN[g.entry.id] = {p: v for p, v in self.bind.items() if p not in self.consts}
         dirty = {g.entry.id}
         rounds = 0
         while dirty:
@@ -284,7 +290,10 @@ class _FnRun:
                 continue
             self.transfer(n, env)
             if n.kind == "return" and n.stmt.value is not None:
-                rets.append(self.eval_value(n.stmt.value, env))
+                rv = n.stmt.value
+                if isinstance(rv, ast.Tuple) and rv.elts:
+                    rv = rv.elts[0]
+                rets.append(self.eval_value(rv, env))
             if n.kind == "stmt" and isinstance(n.stmt, ast.Assign):
                 self.record_stores(n.stmt, env)
             for nm, st0 in env.items():
@@ -296,6 +305,17 @@ class _FnRun:
                     for x in ast.walk(t):
                         if isinstance(x, ast.Name) and isinstance(x.ctx, ast.Store):
                             self.out.reach_assign.setdefault(x.id, set()).add((n.stmt.lineno, n.stmt.col_offset))
+            if n.kind == "loop" and isinstance(n.stmt, ast.For) and isinstance(n.stmt.iter, ast.Call):
+                it0 = n.stmt.iter
+                r0 = self.resolve(it0)
+                if r0[0] == "ext" and r0[1] == "builtins.range" and not it0.keywords and len(it0.args) in (2, 3) \
+                        and self.eval_value(it0.args[1], env) == _fs(("dim", "instances")):
+                    start, step = _const_int(it0.args[0]), (_const_int(it0.args[2]) if len(it0.args) == 3 else 1)
+                    if (start is not None and start != 0) or (step is not None and step != 1):
+                        self.viol4_at("instance-loop@%d:coverage" % n.stmt.lineno if False else "instance-loop:coverage",
+                                      "the per-instance loop runs over range(%s) of the instances in %s: instances are skipped, their "
+                                      "output rows are never computed" % (", ".join(astq.canon(a) for a in it0.args),
+                                                                          qualname(self.fn, self.defcls)), self.loc(n.stmt))
             if n.kind == "loop" and isinstance(n.stmt, ast.For) and self.instance_iter(n.stmt.iter, env):
                 loop = n.stmt
                 if any(isinstance(x, (ast.Break, ast.Continue)) for b in loop.body for x in astq.walk_no_nested(b)
@@ -377,7 +397,7 @@ class _FnRun:
     def transfer(self, node, env):
         """-> list of (successor, env or None)."""
         st = node.stmt
-        if not env:
+        if not env and not (self.consts and node.kind == "test"):
             return [(s, env) for s, _ in node.succ]
         raising = {}  # name -> containers for which this node certainly raises AttributeError (caught)
         if node.kind not in ("entry", "exit", "raise"):
@@ -529,6 +549,12 @@ class _FnRun:
                     keep = frozenset(c for c in s if c == U or c in STATE_PRESERVING_METHODS[f.attr])
                     return keep or None
             r = self.resolve(e)
+            if r[0] == "repo" and id(r[1]) in self.an.converters and e.args:
+                src, dst = self.an.converters[id(r[1])]
+                a0 = self.eval_value(e.args[0], env)
+                if a0 == _fs(src):
+                    return _fs(dst)
+                return None
             if r[0] == "repo":
                 _, fn, module, cls, defcls, skip_self, call = r
                 tracked = self.tracked_args(fn, call, skip_self, env)
@@ -695,6 +721,8 @@ class _FnRun:
                 out.append(False)
             elif isinstance(v, ast.Constant) and isinstance(v.value, bool):
                 out.append(v.value)
+            elif isinstance(v, ast.Name) and v.id in self.consts and v.id not in self.stored:
+                out.append(self.consts[v.id])
             else:
                 self.und("check_X:%s" % p, "coercion flag %s is not a literal: %s" % (p, ast.unparse(v)), call)
                 return None
@@ -730,6 +758,23 @@ class _FnRun:
             if any(v is True for v in vals):
                 return True
             return False if all(v is False for v in vals) else None
+        if isinstance(test, ast.Name) and test.id in self.consts and test.id not in self.stored:
+            return self.consts[test.id]
+        if isinstance(test, ast.Constant) and isinstance(test.value, bool):
+            return test.value
+        if isinstance(test, ast.Compare) and len(test.ops) == 1 and isinstance(test.ops[0], (ast.Eq, ast.NotEq)) and c in (NP, PD):
+            for a, b in ((test.left, test.comparators[0]), (test.comparators[0], test.left)):
+                if isinstance(a, ast.Attribute) and a.attr == "ndim" and isinstance(a.value, ast.Name) and a.value.id == name \
+                        and _const_int(b) is not None:
+                    eq = ({NP: 3, PD: 2}[c] == _const_int(b))
+                    return eq if isinstance(test.ops[0], ast.Eq) else not eq
+        if isinstance(test, ast.Call) and len(test.args) == 1 and isinstance(test.args[0], ast.Name) and test.args[0].id == name \
+                and c in (NP, PD) and not test.keywords:
+            base = test.func.id if isinstance(test.func, ast.Name) else (dotted(test.func) or "").split(".")[0]
+            if base and not self.is_local(base):
+                sym = self.repo.resolve_expr(self.module, test.func)
+                if sym is not None and sym.kind == "func" and sym.target is self.an.is_nested:
+                    return c == PD  # a valid panel frame is a nested frame; an array is not a frame
         if isinstance(test, ast.Call) and isinstance(test.func, ast.Name) and not self.is_local(test.func.id):
             if test.func.id == "isinstance" and len(test.args) == 2 and isinstance(test.args[0], ast.Name) \
                     and test.args[0].id == name:
@@ -799,6 +844,10 @@ class _FnRun:
     def refine(self, test, env, branch):
         names = {n.id for n in ast.walk(test) if isinstance(n, ast.Name) and n.id in env}
         if not names:
+            if self.consts:
+                t = self.truth(test, None, None)
+                if t is not None and t != branch:
+                    return None
             return env
         out = dict(env)
         for nm in names:
@@ -1414,10 +1463,11 @@ def run(ctx):
     validators(ctx, repo, an)
     refresh_guards(ctx, repo, an)
     helper_conformance(ctx, repo)
+    validator_model(ctx, repo, an)
     ctx.floor("R4", 30)
     ctx.floor("R5", 4)
     ctx.floor("R6", 31)
-    ctx.floor("R7", 6)
+    ctx.floor("R7", 24)
 
 
 
@@ -1959,3 +2009,42 @@ def helper_conformance(ctx, repo):
                   "with n == min_instances (a single instance with the default 1) is rejected / a smaller one accepted, so the "
                   "single-instance output cannot equal the corresponding row of the batch output" % astq.canon(test),
                   ctx.loc(vm, test), witness={"input": "X with exactly one instance"})
+
+
+
+def validator_model(ctx, repo, an):
+    """R7: R1 models check_X / check_X_y by their coercion flags.  Decide that model from their source: for each input
+    container and each flag setting the validator returns the promised container (both flags: check_X rejects), and
+    both flags default to False."""
+    mod = repo.module(PANEL_VALIDATION)
+    for fname in ("check_X", "check_X_y"):
+        fn = repo.func(PANEL_VALIDATION, fname)
+        loc = ctx.loc(mod, fn)
+        defaults = astq.param_defaults(fn)
+        for flag in ("coerce_to_numpy", "coerce_to_pandas"):
+            d = defaults.get(flag)
+            ctx.check(isinstance(d, ast.Constant) and d.value is False, "R7", "%s:default:%s" % (fname, flag),
+                      "%s defaults to False (no coercion unless asked)" % flag,
+                      "%s defaults to %s: callers that pass no flag get a converted container" % (
+                          flag, astq.canon(d) if d is not None else "<none>"), loc)
+        for c in (NP, PD):
+            for to_np, to_pd in ((False, False), (True, False), (False, True), (True, True)):
+                if to_np and to_pd and fname != "check_X":
+                    continue
+                bind = {"X": _fs(c), "coerce_to_numpy": _fs(("const", to_np)), "coerce_to_pandas": _fs(("const", to_pd))}
+                sm = an.summary(fn, mod, None, None, bind)
+                construct = "%s:model[%s,numpy=%s,pandas=%s]" % (fname, c, to_np, to_pd)
+                if sm.und:
+                    ctx.undecided("R7", construct, sm.und[0][1], sm.und[0][2])
+                    continue
+                if to_np and to_pd:
+                    ctx.check(not sm.returns, "R7", construct, "both flags are rejected",
+                              "check_X returns normally with both coercion flags set", loc)
+                    continue
+                want = NP if to_np else (PD if to_pd else c)
+                got = sm.ret
+                ctx.check(sm.returns and got == _fs(want), "R7", construct, "returns the %s container" % want,
+                          "%s(X: %s, coerce_to_numpy=%s, coerce_to_pandas=%s) %s; every caller analysed by R1 relies on the %s container"
+                          % (fname, c, to_np, to_pd, ("returns %s" % ("/".join(sorted(got)) if got else "an untracked value"))
+                             if sm.returns else "never returns normally", want), loc,
+                          witness={"input": "%s panel" % c})
